@@ -962,7 +962,7 @@ func C04() *check.Property {
 		Title:    "Each operator computes its documented function of the input sequence",
 		Patterns: cat(CorePatterns, PluginPkgs, IOPluginPkgs, []string{PromPkg}, RatePkgs),
 		Scope:    []string{ro},
-		Rules:    []check.Rule{ruleAdapter(), ruleAlias(), rulePipe(), ruleNoPostDeliveryMutation(), ruleDeadEmission(), ruleStateLevel(), ruleTerminalPropagation(), ruleObservableParamUsed(), ruleContextlessDelegates(), ruleBodyTerminates(), ruleLateEmission(), ruleConsumeFlag(), rulePublishBeforeEmit(), ruleTerminalCallAgreement(), ruleTimerDequeueCoupled(), ruleQueueFIFO(), ruleIncorporateBeforeDecide(), ruleAccessGuarded(), ruleGoSourceTerminates(), withScope(ruleStableMeansStable(), PluginPkgs...)},
+		Rules:    []check.Rule{ruleAdapter(), ruleAlias(), rulePipe(), ruleNoPostDeliveryMutation(), ruleDeadEmission(), ruleStateLevel(), ruleTerminalPropagation(), ruleObservableParamUsed(), ruleContextlessDelegates(), ruleBodyTerminates(), ruleLateEmission(), ruleConsumeFlag(), rulePublishBeforeEmit(), ruleTerminalCallAgreement(), ruleTimerDequeueCoupled(), ruleQueueFIFO(), ruleIncorporateBeforeDecide(), ruleAccessGuarded(), ruleGoSourceTerminates(), withScope(ruleStableMeansStable(), PluginPkgs...), ruleAtomicPointeeImmutable(), ruleInnerFilledBeforeHandover(), ruleGetOrCreate(), ruleNoDuplicateForward()},
 		Explanation: "Narrow structural claim. The values each operator computes are NOT decided (no executable specification of ~150 operators is derivable from the source). Four clauses of the property are visible in the code's shape and are decided: " +
 			"(ADAPTER) plain / indexed / context-aware variants that delegate through a literal are pure adapters — user function called once, only the adapter's own parameters passed, the right context returned — hence observationally identical to the base form; " +
 			"(ALIAS) aliases forward every parameter exactly once; (PIPE) the 50 typed PipeN/PipeOpN apply their operators in order, so a chain is the composition of its parts; " +
@@ -970,7 +970,7 @@ func C04() *check.Property {
 		NotDecided:  "the function computed by every base form (ordering, loss, duplication, boundaries, parameters) and the reflective Pipe/PipeOp versus typed PipeN equivalence at run time.",
 		Assumptions: []string{"go/types (parametricity of the PipeN signatures)"},
 		Floors:      map[string]int{"adapters": 40, "aliases": 20, "pipe_functions": 48, "container_emissions": 6, "emissions_checked": 400},
-		Controls:    map[string]string{"zz_verif_controls_c04.go": roControl(controlsC04), "zz_verif_controls_c12.go": roControl(controlsC12), "zz_verif_controls_c05.go": roControl(controlsC05), "zz_verif_controls_access.go": roControl(controlsAccessGuard), "plugins/sort/zz_verif_controls_c18.go": pluginControl("rosort", []string{`"context"`, `"sort"`, `"github.com/samber/ro"`}, controlsC18Sort)},
+		Controls:    map[string]string{"zz_verif_controls_c04.go": roControl(controlsC04), "zz_verif_controls_c12.go": roControl(controlsC12), "zz_verif_controls_c05.go": roControl(controlsC05), "zz_verif_controls_access.go": roControl(controlsAccessGuard), "zz_verif_controls_atomicptr.go": roControl(controlsAtomicPointee), "zz_verif_controls_c05c.go": roControl(controlsC05c + controlsC05d), "plugins/sort/zz_verif_controls_c18.go": pluginControl("rosort", []string{`"context"`, `"sort"`, `"github.com/samber/ro"`}, controlsC18Sort)},
 	}
 }
 
